@@ -179,9 +179,9 @@ NSHARDS = 16
 def shards(tier, seed):
     full, part = (4, 6) if tier == "quick" else (6, 7)
     out = [{"name": f"enum{i}", "kind": "enum", "i": i, "full": full, "part": part,
-            "budget_s": 120 if tier == "quick" else 1500} for i in range(NSHARDS)]
-    out += [{"name": f"rand{i}", "kind": "rand", "i": i, "count": 30 if tier == "quick" else 2500,
-             "budget_s": 60 if tier == "quick" else 600} for i in range(NSHARDS)]
+            "budget_s": 120 if tier == "quick" else 3600} for i in range(NSHARDS)]
+    out += [{"name": f"rand{i}", "kind": "rand", "i": i, "count": 30 if tier == "quick" else 15000,
+             "budget_s": 60 if tier == "quick" else 3600} for i in range(NSHARDS)]
     return out
 
 
